@@ -686,7 +686,7 @@ impl Prop for C13 {
     fn info(&self) -> PropInfo {
         PropInfo {
             level: "fault_enumeration",
-            rule: "one evaluation = one program. Mode A (3 of 4 runs): the program is first run unhalted (cut at 300 steps), then re-run once for EVERY depth-0 instruction boundary k and each applicable position (before the command body / after it / during its on_error handler / from a nested invocation), the halt flag being raised at exactly that point; each halted run must be the exact prefix of the unhalted one (events, Ok result, variables as after instruction k). Mode B (1 of 4): a halter thread raises the flag under shuttle's seeded random or PCT scheduler. Programs: scripted goto/error programs without SDK and while/for-in/function programs over the real SDK, some non-terminating. Non-trivial = at least 3 steps and the flag was actually raised; distinct = distinct abstract traces of the combined log",
+            rule: "one evaluation = one program. Mode A (3 of 4 runs): the program is first run unhalted (cut at 300 steps), then re-run once for EVERY depth-0 instruction boundary k and each applicable position (before the command body / after it / during its on_error handler / from a nested invocation), the halt flag being raised at exactly that point; each halted run must be the exact prefix of the unhalted one (events, Ok result, variables as after instruction k). Mode B (1 of 4): a halter thread raises the flag under shuttle's seeded random or PCT scheduler. Long haul (1 of 250): a non-terminating 4-line loop runs 10^3 to 5*10^5 instructions without event recording before the flag is raised from inside; no further top-level instruction may start (faults_fired.F6 counts halted executions of all modes). Programs: scripted goto/error programs without SDK (incl. output-only lines, handler registered while running) and while/for-in/function programs over the real SDK, some non-terminating. Non-trivial = at least 3 steps and the flag was actually raised; distinct = distinct abstract traces of the combined log",
             real: &["duckscript::runner (poll site, result handling)", "duckscript::parser", "Env.halt: the std Arc<AtomicBool>", "SDK flow control (while/for/if/function/goto) in Sdk programs"],
             stub: &["harness commands (scripted answers, emit, cnd)", "OS scheduler (replaced by shuttle in mode B)", "out/err streams"],
             assumptions: &["a store that lands between a poll and the next command start is observationally the same as one landing inside that command (both are covered)", "mode B: the runner thread yields only inside decorated invocations and stream writes"],
